@@ -1,9 +1,23 @@
-import Tahoe.Uri.LemmasAtten
+import Tahoe.Uri.LemmasRoSlot
 /-! C16 — capabilities attenuate correctly (`uri.py` get_readonly / get_verify_cap / is_readonly /
 is_mutable, `from_string` alleged prefixes, `unknown.py`, `nodemaker.py` create_from_cap).
 
 All theorems hold for *every* `H : Hashes` (the three tagged hashes are uninterpreted functions),
 so a derived cap can depend on a stronger secret only through the hash the code applies to it.
+-/
+/-! ## Coverage of the statement (properties.jsonl C16)
+
+| clause of the statement | proved for the model by |
+|---|---|
+| "From a write-cap one can derive the read-cap and the verify-cap, and from a read-cap the verify-cap, with the same storage index and fingerprint along the chain." | `chain_same_si_fp` (every cap object incl. directories; also read∘verify = verify). The hash *values* are abstract here (C17 owns them); that the real objects use the same three hashes is **correspondence** (`att` lines carry the real hash values as tables). |
+| "A derived cap never carries the stronger secret …" | `attenuation_noninterference` (derived cap = function of the weaker secrets only, for every choice of hash functions), `flags_sound` (derived objects hold no write key / no read key), `authority_monotone`. |
+| "… and never reports write or read authority it lacks." | `flags_sound` (a well-formed cap says writeable only if it holds a write key; derived caps say read-only / not mutable), `authority_monotone` (get_readonly ≤ read and ≤ the original, get_verify_cap = verify, in the explicit order write > read > verify > opaque). |
+| "A cap marked as alleged read-only or alleged immutable is never interpreted as writeable or mutable." — by `uri.from_string` | `alleged_prefix_respected`, `parsed_authority_bounded` (all byte strings, both contexts). |
+| — by `NodeMaker.create_from_cap`, whatever was created before (seed C16-a) | `node_respects_context`, `cache_is_memoryless` (all histories, incl. weak-reference drops). |
+| — by `UnknownNode` (both slots; seed C16-c) | `unknown_prefix_kept` (errored nodes opaque; stored ro_uri always prefixed, `imm.` never weakened; rw_uri kept only when given as such with a read cap outside deep-immutable). |
+| — along the route set_uri → `_pack_normalized_children` (cleartext ro slot) → `_unpack_contents` → create_from_cap(None, stored) (seed C16-c) | `ro_slot_never_writes`: the reader's node has at most read authority for every (writecap, readcap, context) and every hash functions, EXCEPT `roSlotException`; `ro_slot_exception_is_real` / `ro_slot_unprefixed_writecap_counterexample` prove the exception is inhabited (open known finding `ro-slot-unprefixed-writecap-in-unknownnode`). What is modelled of pack/unpack is the ro-slot string only; netstring framing, rw-slot encryption, metadata and the `rstrip(b" ")` on read are **not covered** here (C19/C18); the in-process grid run of the harness is **monitor only**. |
+| quantifier "all prefix combinations ro./imm. with deep-immutable and read-only contexts" | theorems are for all byte strings (so all prefix stackings) and both values of `deep`; "read-only context" = the ro slot / readcap argument, covered by the ro-slot route above. |
+| verify-cap of a directory *verifier* cap | outside the statement; `dir_verifier_reverify_is_miskinded` records what the code does. |
 -/
 namespace Tahoe.C16
 open Tahoe.Uri
@@ -146,6 +160,59 @@ theorem dir_verifier_reverify_is_miskinded (H : Hashes) (si fp : Bytes) :
     (Cap.dir .sskV (.mdmfV si fp)).toString = none ∧
     (Cap.dir .sskV (.sskV si fp)).getVerifyCap H = some (.dir .sskV (.sskV si fp)) := ⟨rfl, rfl, rfl⟩
 
+/-! ### the authority order  write > read > verify > opaque -/
+
+/-- Every diminishing operation is monotone non-increasing in the authority order: `get_readonly()`
+never returns more than the cap had and (for the cap objects the code builds) at most `read`;
+`get_verify_cap()` returns exactly `verify`, which is never more than the cap had. -/
+theorem authority_monotone (H : Hashes) (c : Cap) :
+    (∀ r, c.getReadonly H = some r → r.authority ≤ c.authority ∧ (c.wf = true → r.authority ≤ .read)) ∧
+    (∀ v, c.getVerifyCap H = some v → v.authority = .verify ∧ v.authority ≤ c.authority) :=
+  ⟨fun r h => getReadonly_authority H c r h, fun v h => getVerifyCap_authority H c v h⟩
+
+example (H : Hashes) : ((Cap.dir .mdmf (.mdmf [1] [2])).authority, ((Cap.dir .mdmf (.mdmf [1] [2])).getReadonly H).map Cap.authority,
+    ((Cap.dir .mdmf (.mdmf [1] [2])).getVerifyCap H).map Cap.authority) = (.write, some .read, some .verify) := rfl
+
+/-- A string carrying `ro.` or `imm.`, or parsed in a deep-immutable context, never yields more than
+read authority (an `UnknownURI` is `opaque`). -/
+theorem parsed_authority_bounded (deep : Bool) (u : Bytes)
+    (h : roPrefix.isPrefixOf u = true ∨ immPrefix.isPrefixOf u = true ∨ deep = true) :
+    (fromString deep u).authority ≤ .read :=
+  fromString_authority deep u h
+
+example : (fromString false (filePrefix .ssk ++ List.replicate 26 97 ++ [58] ++ List.replicate 52 97)).authority = .write ∧
+    (fromString true (filePrefix .ssk ++ List.replicate 26 97 ++ [58] ++ List.replicate 52 97)).authority = .opaque := by decide
+
+/-! ### nothing stored in a ro slot yields write authority (one proved exception) -/
+
+/-- The route  linker → cleartext ro slot → reader.  `packRo` is what `dirnode.set_uri` +
+`_pack_normalized_children` store in the ro slot for a child given as (writecap, readcap) in a mutable
+(`deep = false`) or immutable (`deep = true`) directory; `readerNode` is the node `_unpack_contents` builds
+from that slot for someone who holds only the directory's read cap.  For every pair of strings, both
+contexts and every choice of hash functions the reader's node has at most read authority — except in
+the one situation of the open finding (`roSlotException`): an UnknownNode child whose ro slot was given an
+UNPREFIXED string that parses as a write cap. -/
+theorem ro_slot_never_writes (H : Hashes) (w r : Option Bytes) (deep : Bool) (stored : Bytes)
+    (h : packRo H w r deep = .stored stored) :
+    (readerNode stored deep).authority ≤ .read ∨ roSlotException w r deep :=
+  ro_slot_core H w r deep stored h
+
+/-- non-vacuous: a directory write cap linked as a child is stored diminished and read back read-only -/
+example : let H : Hashes := ⟨fun _ => List.replicate 16 0, id, id⟩
+    let d := dirPrefix .ssk ++ List.replicate 26 97 ++ [58] ++ List.replicate 52 97
+    packRo H (some d) none false = .stored (dirPrefix .sskRo ++ List.replicate 26 97 ++ [58] ++ List.replicate 52 97) ∧
+    (readerNode (dirPrefix .sskRo ++ List.replicate 26 97 ++ [58] ++ List.replicate 52 97) false).authority = .read := by
+  decide
+
+/-- The exception is real (known finding `ro-slot-unprefixed-writecap-in-unknownnode`): true of the code
+and of the model. -/
+theorem ro_slot_exception_is_real :
+    let H : Hashes := ⟨id, id, id⟩
+    let w := filePrefix .ssk ++ List.replicate 26 97 ++ [58] ++ List.replicate 52 97
+    packRo H (some [120, 58, 121]) (some w) false = .stored w ∧ (readerNode w false).authority = .write ∧
+    roSlotException (some [120, 58, 121]) (some w) false := by
+  refine ⟨by decide, by decide, rfl, ⟨_, rfl⟩, _, rfl, by decide, by decide, by decide⟩
+
 /-! ### alleged prefixes -/
 
 /-- For every string and both contexts: a `ro.`-prefixed input is never interpreted as a writeable
@@ -155,50 +222,7 @@ theorem alleged_prefix_respected (deep : Bool) (u : Bytes) :
     (roPrefix.isPrefixOf u = true → (fromString deep u).isReadonly ≠ some false) ∧
     ((immPrefix.isPrefixOf u = true ∨ deep = true) → (fromString deep u).isMutable ≠ some true) ∧
     (immPrefix.isPrefixOf u = true → (fromString deep u).isReadonly ≠ some false) := by
-  have key : ∀ c, fromString deep u = c →
-      (((stripAlleged deep u).2.1 = false → c.isReadonly ≠ some false) ∧
-       ((stripAlleged deep u).1 = false → c.isMutable ≠ some true)) := by
-    intro c h
-    have mono := stripAlleged_mono deep u
-    simp only [fromString, fromStringWith] at h
-    cases hd : dispatch (stripAlleged deep u).2.2 with
-    | none => rw [hd] at h; subst h; simp [Cap.isReadonly, Cap.isMutable]
-    | some eb =>
-      obtain ⟨e, body⟩ := eb
-      obtain ⟨p, hmem, _⟩ := dispatch_inv _ _ _ hd
-      rw [hd] at h
-      cases e with
-      | file k need =>
-        obtain ⟨rfl, rfl⟩ := table_file p k need hmem
-        simp only at h
-        split at h
-        · rename_i hn
-          cases hi : initBodyWith spec k body with
-          | none => rw [hi] at h; subst h; simp [Cap.isReadonly, Cap.isMutable]
-          | some f =>
-            rw [hi] at h; subst h
-            obtain ⟨hkind, _, _⟩ := initBody_inv k body f hi
-            subst hkind
-            constructor
-            · intro hw; cases f <;> simp_all [needOk, fileNeed, FileCap.kind, Cap.isReadonly, FileCap.isReadonly]
-            · intro hm; cases f <;> simp_all [needOk, fileNeed, FileCap.kind, Cap.isMutable, FileCap.isMutable]
-        · subst h; simp [Cap.isReadonly, Cap.isMutable]
-      | dir k need =>
-        obtain ⟨rfl, rfl⟩ := table_dir p k need hmem
-        simp only at h
-        split at h
-        · rename_i hn
-          cases hi : initBodyWith spec k body with
-          | none => rw [hi] at h; subst h; simp [Cap.isReadonly, Cap.isMutable]
-          | some f =>
-            rw [hi] at h; subst h
-            constructor
-            · intro hw; cases k <;> simp_all [needOk, fileNeed, Cap.isReadonly, dirIsReadonly]
-            · intro hm; cases k <;> simp_all [needOk, fileNeed, Cap.isMutable, dirIsMutable]
-        · subst h; simp [Cap.isReadonly, Cap.isMutable]
-      | futureWriteable => simp only at h; split at h <;> (subst h; simp [Cap.isReadonly, Cap.isMutable])
-      | futureMutable => simp only at h; split at h <;> (subst h; simp [Cap.isReadonly, Cap.isMutable])
-  obtain ⟨k1, k2⟩ := key _ rfl
+  obtain ⟨k1, k2⟩ := fromString_flags_of_ctx deep u
   refine ⟨fun h => k1 ?_, fun h => k2 ?_, fun h => k1 ?_⟩
   · simp only [stripAlleged]; split <;> simp_all
   · simp only [stripAlleged]; rcases h with h | h
